@@ -315,7 +315,10 @@ func (g *gen) freshName(typ string, pool []string) string {
 			// a loop scope is re-executed: a def that shadows an outer name of another type
 			// would change, on the next iteration, the dynamic type of everything defined
 			// from that name earlier in the body (zygo's same-scope re-def type rule again)
-			if v, ok := g.scope.parent.lookup(n); ok && v.typ != typ {
+			if v, ok := g.scope.parent.lookup(n); ok && (v.typ != typ || (typ == "defn" && g.scope.isLoop)) {
+				// (a defn in a loop scope that shadows an outer function changes, from the second
+				// iteration on, what earlier statements of the body call - and the type of what
+				// they define)
 				continue
 			}
 		}
